@@ -137,6 +137,20 @@ CLAIMED = {
             "sequences (3–12 ops over four rule files, collision-prone expression pairs) in one process vs os.fork from a pristine interpreter after every classify/evaluate, plus the symbolic-world "
             "correspondence of which load an answer comes from; frame (rules / rows / transaction unchanged) by deep copies on the implementation. Defect D7 repaired by a fix: commit.",
             "DESIGN.md §5 C07"),
+    'C11': ("Executable Lean composition of the parser, transform, engine and totals models (`pipeline` op) + Lean composition laws + end-to-end correspondence with `python -m tally up` in fresh processes",
+            "Proof: silent_source_neutral (a supplemental / missing / empty source leaves the report exactly as it is), source_local (the figures are those of the report without source s plus those of s alone), "
+            "setting_local, source_order_irrelevant, report_count — for ARBITRARY per-source parse-and-classify functions, from C06's permutation and partition theorems. The executable model "
+            "Pipeline.classifyRow / Driver.handlePipeline reproduces `tally up --format json` (merchants, categories, tags, counts exactly; money to the cent) on generated budgets.",
+            "PARTIAL: argparse, YAML loading, path resolution and printing are exercised end to end but not modelled; tokenisation is taken from the implementation (as C05); legacy-CSV rule budgets are covered "
+            "by the implementation oracles only (generator-truth count/sum/probe oracle, per-source locality, neutral sources); figures compared to the cent.",
+            "DESIGN.md §5 C11"),
+    'C16': ("Lean 4 theorems about the shared classification function and the discover grouping + three-command end-to-end oracle in fresh processes + model-vs-CLI correspondence for explain",
+            "Proof: explain_eq_up (explain is classifyRow on the transaction built from a description and an amount — same rule mode, variables, lets, tag-only rules, transforms, supplemental rows), "
+            "discover_eq_unknown (a description is listed iff up leaves a transaction with it Unknown, with exactly their count and Σ|amount|), categorised_not_listed, discover_counts.",
+            "PARTIAL: argparse, printing and explain's lookup cascade are exercised, not modelled; explain_eq_up is definitional on the model (the content is the correspondence of the model with the CLI and the "
+            "three-command oracle: discover = Unknown part of up; explain(desc, amount) = up on the budget extended by that transaction; explain(<merchant>) = up's category). Rules over dates / source / custom "
+            "fields are outside the description+amount clause. Defect D16 repaired by a fix: commit.",
+            "DESIGN.md §5 C16"),
 }
 
 PENDING_REASON = "not claimed yet: model/theorems for this property are still being built (see DESIGN.md §7 build order); no check is registered until it is sound"
